@@ -61,6 +61,7 @@ func GrammarF5() *gen.Grammar {
 			gen.TL("altab", "%0 as [$a] ?// $b | %1", 2, pipe, term),
 			gen.TL("altshort", "%0 as {$a: [$b]} ?// {a: $c} | %1", 2, pipe, term),
 			gen.TL("altshort2", "%0 as {$a, b: [$c]} ?// $b | %1", 2, pipe, term),
+			gen.TL("altshort3", "%0 as [$a] ?// {$b: [$c]} | %1", 2, pipe, term),
 			gen.TL("arr", "%0 as [$a, $b] | %1", 2, pipe, term),
 			gen.TL("obj", "%0 as {a: $a, $b} | %1", 2, pipe, term),
 			gen.TL("objkey", "%0 as {(%1): $c} | [$c]", 2, pipe, term),
